@@ -537,3 +537,51 @@ Proof.
     - constructor; [exact S|]. apply Forall_forall. intros y Hy. apply Hall. apply in_map. exact Hy. }
   exact (G _ Hs).
 Qed.
+
+(* ---- concrete rows for the Examples of Properties/C16.v --------------------------------------------------- *)
+
+(* user "u1", channel [ch] of type 2, in hash slot 5 *)
+Definition example_row (ch : bytes) (read del : N) (act : Z) (tomb : bool) (sv : N) : membership :=
+  Membership (hx "7531") ch 2%Z 1 read del act tomb 0%Z sv 100%Z.
+Definition example_key (ch : bytes) : mkey := MKey 5 (hx "7531") ch 2%Z.
+
+(* ---- statements in the exact shape of Properties/C16.v --------------------------------------------------- *)
+
+Lemma cursor_monotone_fields pre ops k a :
+  get_row (c16_exec mstate_empty pre) k = Some a ->
+  membership_boundary k a (flat_map op_muts ops) = false ->
+  exists b, get_row (c16_exec mstate_empty (pre ++ ops)) k = Some b
+            /\ m_read_seq a <= m_read_seq b /\ m_deleted_to_seq a <= m_deleted_to_seq b
+            /\ m_source_version a <= m_source_version b.
+Proof.
+  intros Ha Hb.
+  destruct (history_cursor_monotone pre ops k a Ha Hb) as (b & Hg & [H1 H2 H3]).
+  exists b. repeat split; assumption.
+Qed.
+
+Lemma recreate_needs_newer_source k a us :
+  membership_boundary k a us = true ->
+  exists u, In u us /\
+    (u = MDelete k
+     \/ exists slot m, (u = MUpsert slot m \/ u = MEnsure slot m)
+                       /\ membership_key slot m = k /\ m_source_version a < m_source_version m).
+Proof. exact (boundary_needs_newer_source k _ us _ _). Qed.
+
+Lemma ack_reset_needs_rebind k a us :
+  cmd_boundary k a us = true ->
+  exists slot c, In (MCmdUpsert slot c) us /\ cmd_membership_key slot c = k /\ c_tombstone c = false.
+Proof. exact (cmd_boundary_needs_rebind k us _). Qed.
+
+Lemma stale_source_refused st slot m a :
+  get_row st (membership_key slot m) = Some a ->
+  (m_source_version m < m_source_version a ->
+   get_row (snd (direct_apply st (MUpsert slot m))) (membership_key slot m) = Some a)
+  /\ (m_source_version m <= m_source_version a ->
+      get_row (snd (direct_apply st (MEnsure slot m))) (membership_key slot m) = Some a).
+Proof. intro Hg. split; [apply upsert_stale_row|apply ensure_stale_row]; exact Hg. Qed.
+
+Lemma index_consistent_full ops e :
+  let st := c16_exec mstate_empty ops in
+  (In e (st_index st) <-> exists k row, get_row st k = Some row /\ e = activation_entry (k_slot k) row)
+  /\ NoDup (st_index st).
+Proof. split; [exact (index_consistent ops e)|exact (index_nodup ops)]. Qed.
